@@ -3414,4 +3414,5 @@ class SimPersistent(EventBasedTimestampWeightedTally, SimStatisticsInterface):
         elif event.event_type == ReplicationInterface.WARMUP_EVENT:
             self.initialize()
         elif event.event_type == ReplicationInterface.END_REPLICATION_EVENT:
-            self.end_observations(self.simulator.simulator_time)
+            # float(...) will turn a Duration simulator time into its si-value
+            self.end_observations(float(self.simulator.simulator_time))
